@@ -1076,7 +1076,7 @@ impl C11 {
         }
         let (sg, dc, _) = addr.get(&victim).cloned().unwrap_or((0, 0, Value::Null));
         ops_after.push(json!({"op": "commit", "dels": [[sg, dc]], "adds": 0}));
-        sig = "cursor.accepted-after-delete-only-commit";
+        sig = if post == "delete_cursor_doc" { "cursor.accepted-after-deleting-the-cursor-document" } else { "cursor.accepted-after-delete-only-commit" };
       }
       "compact" => {
         if let Err(e) = idx.compact() {
@@ -1257,14 +1257,16 @@ impl Prop for C11 {
     "C11"
   }
   fn rule(&self) -> &'static str {
-    "case = (1-4 commit batches = segments over a schema with text body, fast keyword tag, fast i64 n, fast f64 x; missing / single / multi values from small domains, cloned batches for score ties across segments, optional delete-only commit; query match_all | term | 1-4 words; sort plan default | _score asc/desc | 1-3 of {_score,tag,n,x} with asc/desc/default; page size 1..7; execution wand|bm25; one post operation commit_add | delete_only | delete_cursor_doc | compact | other_sort | reopen; 6 ASCII cursor mutations). Non-trivial = the walk has >= 2 pages AND at least two matches tie on the primary sort value; distinct = distinct case JSON. One extra case per run checks a single request with limit > 20000."
+    "case = (1-4 commit batches = segments over a schema with text body, fast keyword tag, fast i64 n, fast f64 x; missing / single / multi values from small domains, cloned batches for score ties across segments, optional delete-only commit; query match_all | term | 1-4 words; sort plan default | _score asc/desc | 1-3 of {_score,tag,n,x} with asc/desc/default; page size 1..7; execution wand|bm25; one post operation commit_add | delete_only | delete_cursor_doc | compact | other_sort | reopen; 6 ASCII cursor mutations). Non-trivial = the walk has >= 2 pages AND at least two matches tie on the primary sort value; distinct = distinct case JSON. The corpus adds one case per finding, among them a single request with limit > 20000 over 20011 matches."
   }
   fn count(&self, tier: Tier) -> usize {
-    tier.pick(161, 5001)
+    tier.pick(301, 6001)
   }
   fn gen(&self, rng: &mut Rng, _tier: Tier, i: usize) -> Value {
-    if i == 0 {
-      return json!({"kind": "big", "docs": 20011, "query": {"type": "match_all"}, "sort": [{"field": "n", "order": "asc"}]});
+    // the `big` kind (one request with limit > MAX_CANDIDATE_SIZE over 20011 matches) runs from
+    // corpus/C11/large-limit.json on every check; in the thorough tier a second size is generated
+    if i == 0 && _tier == Tier::Thorough {
+      return json!({"kind": "big", "docs": 20002 + rng.below(40), "query": {"type": "match_all"}, "sort": [{"field": "n", "order": "asc"}]});
     }
     gen_walk(rng)
   }
